@@ -88,3 +88,55 @@ Theorem C15_constants_pinned :
   /\ max_tuple_data_size = 65535 - c_count_size - c_hash_byte_len - c_int64_size - c_int8_size.
 Proof. exact consts_pinned. Qed.
 Print Assumptions C15_constants_pinned.
+
+(* the executable statement of the property holds of the model on every
+   well-formed input outside the class of the known finding F9 (f9_free) *)
+Theorem C15_oracle_on_model :
+  forall i : input, wf_input i = true -> f9_free i = true -> oracle i (model_obs i) = true.
+Proof. exact oracle_on_model. Qed.
+Print Assumptions C15_oracle_on_model.
+
+(* floats: for bit patterns that are not NaNs the comparison the code makes is
+   the order of the numeric values (float_value = value scaled to an integer) *)
+Theorem C15_float_compare_value :
+  forall fbits ebits a b : N,
+    float_is_nan fbits ebits a = false -> float_is_nan fbits ebits b = false ->
+    float_compare fbits ebits a b = (float_value fbits ebits a ?= float_value fbits ebits b)%Z.
+Proof. exact float_compare_value. Qed.
+Print Assumptions C15_float_compare_value.
+
+Theorem C15_cmp_enc_float32 :
+  forall (read : bytes -> bytes) (a b : N),
+    a < 2 ^ 32 -> b < 2 ^ 32 -> float_is_nan 32 8 a = false -> float_is_nan 32 8 b = false ->
+    cmp_field read EFloat32 (encode EFloat32 (VN a)) (encode EFloat32 (VN b)) = (float_value 32 8 a ?= float_value 32 8 b)%Z.
+Proof. exact cmp_enc_float32. Qed.
+Print Assumptions C15_cmp_enc_float32.
+
+Theorem C15_cmp_enc_float64 :
+  forall (read : bytes -> bytes) (a b : N),
+    a < 2 ^ 64 -> b < 2 ^ 64 -> float_is_nan 64 11 a = false -> float_is_nan 64 11 b = false ->
+    cmp_field read EFloat64 (encode EFloat64 (VN a)) (encode EFloat64 (VN b)) = (float_value 64 11 a ?= float_value 64 11 b)%Z.
+Proof. exact cmp_enc_float64. Qed.
+Print Assumptions C15_cmp_enc_float64.
+
+(* NaN as implemented: the answer is 1 whichever side is the NaN — not an order
+   (full statement "compare is a total preorder on all bit patterns" is false for NaN) *)
+Theorem C15_float_compare_nan :
+  forall fbits ebits a b : N,
+    float_is_nan fbits ebits a || float_is_nan fbits ebits b = true -> float_compare fbits ebits a b = Gt.
+Proof. exact float_compare_nan. Qed.
+Print Assumptions C15_float_compare_nan.
+
+(* decimals: the comparison is that of the exact values c * 10^e, whatever
+   common power of ten both sides are scaled by *)
+Theorem C15_decimal_compare_scale_invariant :
+  forall na ca ea nb cb eb m',
+    (m' <= Z.min ea eb)%Z ->
+    (dec_scaled na ca ea m' ?= dec_scaled nb cb eb m')%Z = decimal_compare (DFin na ca ea) (DFin nb cb eb).
+Proof. exact decimal_compare_scale_invariant. Qed.
+Print Assumptions C15_decimal_compare_scale_invariant.
+
+Theorem C15_vi_roundtrip :
+  forall (n : N) (rest : bytes), n < 2 ^ 64 -> vi_dec (vi_enc n ++ rest) = (n, len (vi_enc n)).
+Proof. exact vi_roundtrip. Qed.
+Print Assumptions C15_vi_roundtrip.
